@@ -74,6 +74,28 @@ def special_cases():
     return S
 
 
+def probe_cases(rng, n):
+    """Programs that are EXPECTED to be refused on a correct tree (word data at an odd address): they are run
+    anyway, because a change that wrongly accepts them must still keep addresses and bytes in step.
+    Origin 'probe': a failed assembly is fine, an accepted one is judged like any other."""
+    out = []
+    def one(src):
+        out.append(("probe", [("p.mac", src)], {}, {}))
+    one('.ascii "abc"\nfirst, second\n.byte 1, 2, 3\nfinal: .word final, first, second\nfirst = 1\nsecond = 2\n')
+    one('.byte 1\n1, 2, 3\nl: .word l\n')
+    one('.byte 1\n.word 5\nl: .word l\n')
+    one('.byte 1\n.dword 5\nl: .word l\n')
+    one('.byte 1\nmov #l, r0\nl: .word l\n')
+    one('.link 1001\n1, 2\nl: .word l\n')
+    prof = proggen.Profile(n_files=(1, 2), link="maybe", n_stmts=(4, 16))
+    for i in range(n):
+        p = proggen.gen_program(rng, prof)
+        files = [(fn, "\n".join(l for l in t.split("\n") if l.strip() != ".even")) for fn, t in p.files]
+        fs = {k: (v if not isinstance(v, str) else "\n".join(l for l in v.split("\n") if l.strip() != ".even")) for k, v in p.fs.items()}
+        out.append(("probe", files, fs, {}))
+    return out
+
+
 def run_impl(cases):
     jobs = [((files,), {"fs": fs, "post": "c02_worker:post"}) for _, files, fs, _ in cases]
     return impl.pmap("assemble", jobs)
@@ -100,7 +122,7 @@ def py_block_ok(b):
 def explore(rep, br, tier, seed):
     rng = random.Random(seed)
     n = 320 if tier == "quick" else 6000
-    cases = special_cases() + gen_cases(rng, n)
+    cases = special_cases() + gen_cases(rng, n) + probe_cases(rng, 60 if tier == "quick" else 600)
     for path in CORPUS:
         with open(path, encoding="utf-8") as f:
             cases.append(("corpus", [(path, f.read())], None, {}))
@@ -117,7 +139,7 @@ def explore(rep, br, tier, seed):
             rep.disagree("harness error while running the implementation", {"files": files}, impl=o.get("error"))
             continue
         if o["outcome"] != "ok":
-            if origin != "gen":
+            if origin not in ("gen", "probe"):
                 rep.violate(f"not-ok:{origin}:{files[0][0]}", "a corpus/special program no longer assembles", {"files": files},
                             impl={k: o.get(k) for k in ("outcome", "crash", "diags")})
             continue
